@@ -200,7 +200,7 @@ def _init_value(repo, col):
     st = [s_ for s_ in ex.stores if s_.kind == "mcall" and s_.key.name == "append" and s_.base.op == "attr" and s_.base.name == "trainable_params"]
     if not st:
         raise AnalysisError("make_trainable no longer appends to trainable_params")
-    v = st[0].value
+    v = idx.shape_norm(st[0].value)
     NAN_AWARE = {"nanmean", "nanmedian", "nanmax", "nanmin", "nansum"}
     PLAIN = {"mean", "median", "average", "sum", "max", "min", "amax", "amin", "prod"}
     def value_walk(t):
@@ -783,7 +783,7 @@ def trainable_count(repo, col, R):
     if not cnt:
         col.unk(R, fi, "make_trainable adds the number of created parameters to the module's count", "count update not found", node=fi.node)
     for s_ in cnt:
-        v = s_.value
+        v = idx.shape_norm(s_.value)
         prev = lambda t: t.op == "attr" and t.name == "num_trainable_params"
         ok = v.op == "binop" and v.name == "+" and len(v.args) == 2 and (prev(v.args[0]) != prev(v.args[1])) and \
             T.find(v, lambda x: x.op == "call" and x.name == "len") is not None
